@@ -38,7 +38,8 @@
 From Coq Require Import NArith Bool List Lia.
 From stdpp Require Import base list option.
 From RecordUpdate Require Import RecordSet.
-From RC Require Import Hdr Machine RunInd Inv InvP SafeMain Pass PassMain BufBase Buf Cover SafeCollPass Quiet QuietCover.
+From RC Require BufBase Buf.
+From RC Require Import Hdr Machine RunInd Inv InvP SafeHelpers SafeMain Pass PassMain Cover SafeCollPass SafeFinal Quiet QuietCover.
 Import ListNotations RecordSetNotations.
 Local Open Scope N_scope.
 
@@ -95,7 +96,7 @@ Print Assumptions C02_pinned_b_spec.
 (** ** One pass collects everything that is neither program-reachable nor pinned *)
 Theorem C02_quiet_pass :
   forall (K : conf) (P : prog) (m m' : machine) (L : list id),
-  SInv K true [] [] m -> Ibuf K [] m -> Quiet.Cover P m ->
+  SInv K true [] [] m -> BufBase.Ibuf K [] m -> Quiet.Cover P m ->
   trace_pass K P (m <| st_collecting := true |> <| st_finalizing := false |> <| st_dropping := false |>)
     = (m', PDone L) ->
   forall v x, get m v = Some x -> o_box x = BAlloc -> o_vst x = VLive -> v ∉ dead m ->
@@ -106,7 +107,7 @@ Print Assumptions C02_quiet_pass.
 (** the same for any start state with the heap and buffer of [m], in positive form *)
 Theorem C02_quiet_pass_pos :
   forall (K : conf) (P : prog) (m m0 m' : machine) (L : list id),
-  SInv K true [] [] m -> Ibuf K [] m -> Quiet.Cover P m ->
+  SInv K true [] [] m -> BufBase.Ibuf K [] m -> Quiet.Cover P m ->
   heap m0 = heap m -> pc m0 = pc m -> pc_size m0 = pc_size m ->
   trace_pass K P m0 = (m', PDone L) ->
   forall v x, get m v = Some x -> o_box x = BAlloc -> o_vst x = VLive ->
@@ -120,18 +121,18 @@ Print Assumptions C02_quiet_pass_pos.
     not yet proved inductive for the mutator). *)
 Theorem C02_quiet_partial :
   forall (K : conf) (P : prog) (n : nat) (m m1 : machine),
-  SInv K true [] [] m -> Ibuf K [] m -> Quiet.Cover P m -> MapsOwned m ->
+  SInv K true [] [] m -> BufBase.Ibuf K [] m -> Quiet.Cover P m -> MapsOwned m ->
   st_collecting m = false ->
   run K P n KCollectCycles m = (m1, ONormal) -> quiet m m1 ->
   (forall o x, get m1 o = Some x -> o_box x = BAlloc -> o_vst x = VLive -> o ∉ dead m1 ->
      ~ ProgReach m1 o -> ~ Pinned P m1 o -> False) /\
-  gsim m m1 /\ pc m1 = [] /\ st_alloc m1 = bytes K m1.
+  gsim m m1 /\ pc m1 = [] /\ st_alloc m1 = BufBase.bytes K m1.
 Proof. exact Quiet.C02_quiet. Qed.
 Print Assumptions C02_quiet_partial.
 
 Theorem C02_quiet_pos_partial :
   forall (K : conf) (P : prog) (n : nat) (m m1 : machine),
-  SInv K true [] [] m -> Ibuf K [] m -> Quiet.Cover P m -> MapsOwned m ->
+  SInv K true [] [] m -> BufBase.Ibuf K [] m -> Quiet.Cover P m -> MapsOwned m ->
   st_collecting m = false ->
   run K P n KCollectCycles m = (m1, ONormal) -> quiet m m1 ->
   forall o x, get m1 o = Some x -> o_box x = BAlloc -> o_vst x = VLive ->
@@ -142,7 +143,7 @@ Print Assumptions C02_quiet_pos_partial.
 (** the coverage invariant holds again after a quiet collection *)
 Theorem C02_quiet_cover_partial :
   forall (K : conf) (P : prog) (n : nat) (m m1 : machine),
-  SInv K true [] [] m -> Ibuf K [] m -> Quiet.Cover P m -> MapsOwned m ->
+  SInv K true [] [] m -> BufBase.Ibuf K [] m -> Quiet.Cover P m -> MapsOwned m ->
   st_collecting m = false ->
   run K P n KCollectCycles m = (m1, ONormal) -> quiet m m1 -> Quiet.Cover P m1.
 Proof. exact Quiet.C02_quiet_cover. Qed.
@@ -159,7 +160,7 @@ Theorem C02_quiet_prog_partial :
   run K P n KCollectCycles m = (m1, ONormal) -> quiet m m1 ->
   (forall o x, get m1 o = Some x -> o_box x = BAlloc -> o_vst x = VLive ->
      o ∈ dead m1 \/ ProgReach m1 o \/ Pinned P m1 o) /\
-  gsim m m1 /\ pc m1 = [] /\ st_alloc m1 = bytes K m1.
+  gsim m m1 /\ pc m1 = [] /\ st_alloc m1 = BufBase.bytes K m1.
 Proof. exact Quiet.C02_quiet_prog. Qed.
 Print Assumptions C02_quiet_prog_partial.
 
@@ -174,7 +175,7 @@ Print Assumptions C02_quiet_spec.
 Theorem C02_bytes :
   forall (K : conf) (P : prog) (fuel : nat) (cmds : list cmd),
   let m := fold_left (fun m c => exec_top K P fuel c m) cmds (init K) in
-  (forall b o, In (EBad b o) (log m) -> badk b = false) -> st_alloc m = bytes K m.
+  (forall b o, In (EBad b o) (log m) -> BufBase.badk b = false) -> st_alloc m = BufBase.bytes K m.
 Proof. exact Quiet.C02_bytes. Qed.
 Print Assumptions C02_bytes.
 
@@ -183,13 +184,97 @@ Print CoverE.
 
 Theorem C02_cover_pass :
   forall (K : conf) (P : prog) (m m0 m' : machine) (L : list id),
-  SInv K true [] [] m -> Ibuf K [] m -> Quiet.Cover P m ->
+  SInv K true [] [] m -> BufBase.Ibuf K [] m -> Quiet.Cover P m ->
   heap m0 = heap m -> pc m0 = pc m -> pc_size m0 = pc_size m ->
   slots m0 = slots m -> bag m0 = bag m -> values m0 = values m -> dead m0 = dead m ->
   trace_pass K P m0 = (m', PDone L) ->
   Quiet.Cover P (m' <| pc := L |>).
 Proof. exact QuietCover.Cover_pass. Qed.
 Print Assumptions C02_cover_pass.
+
+(** the form of the invariant meant to be inductive at inner points ([E]: handles in flight,
+    [A]: active list of the running collection, [X]: objects whose destruction is starting) *)
+Theorem C02_coverE_nil :
+  forall (P : prog) (m : machine), CoverE P [] [] [] m <-> Quiet.Cover P m.
+Proof. exact QuietCover.CoverE_nil. Qed.
+Print Assumptions C02_coverE_nil.
+
+Theorem C02_classified_succ :
+  forall (P : prog) (E A X : list id) (m : machine) (p c : id),
+  CoverE P E A X m -> p ∉ X -> c ∈ all_succ m p -> Cl P E A m c.
+Proof. exact QuietCover.classified_succ. Qed.
+Print Assumptions C02_classified_succ.
+
+Theorem C02_coverE_add_to_list :
+  forall (K : conf) (P : prog) (E A X : list id) (o : id) (m : machine),
+  CoverE P E A X m -> CoverE P E A X (add_to_list o m).
+Proof. exact QuietCover.CoverE_add_to_list. Qed.
+Print Assumptions C02_coverE_add_to_list.
+
+Theorem C02_coverE_remove_from_list :
+  forall (K : conf) (P : prog) (E A X : list id) (o : id) (m : machine),
+  ProgReachE E m o -> CoverE P E A X m -> CoverE P E A X (remove_from_list o m).
+Proof. exact QuietCover.CoverE_remove_from_list. Qed.
+Print Assumptions C02_coverE_remove_from_list.
+
+Theorem C02_coverE_write_slot :
+  forall (P : prog) (E A X : list id) (i : nat) (v : option id) (m : machine),
+  (i < length (slots m))%nat ->
+  CoverE P (olist v ++ E) A X m ->
+  CoverE P (olist (read_loc (RSlot i) m) ++ E) A X (write_loc (RSlot i) v m).
+Proof. exact QuietCover.CoverE_write_slot. Qed.
+Print Assumptions C02_coverE_write_slot.
+
+Theorem C02_coverE_write_field :
+  forall (P : prog) (E A X : list id) (p : id) (j : nat) (v : option id) (m : machine) (xp : obj),
+  get m p = Some xp -> (j < length (o_fields xp))%nat ->
+  (forall t, v = Some t -> reported P xp j -> p ∈ dead m \/ Cl P E A m p) ->
+  CoverE P (olist v ++ E) A X m ->
+  CoverE P (olist (read_loc (RField p j) m) ++ E) A X (write_loc (RField p j) v m).
+Proof. exact QuietCover.CoverE_write_field. Qed.
+Print Assumptions C02_coverE_write_field.
+
+Theorem C02_coverE_dealloc :
+  forall (K : conf) (P : prog) (E A X : list id) (o : id) (m : machine) (x : obj),
+  get m o = Some x -> o_vst x <> VLive -> CoverE P E A X m -> CoverE P E A X (dealloc K o m).
+Proof. exact QuietCover.CoverE_dealloc. Qed.
+Print Assumptions C02_coverE_dealloc.
+
+Theorem C02_coverE_pass :
+  forall (K : conf) (P : prog) (m m0 m' : machine) (L : list id),
+  SInv K true [] [] m -> BufBase.Ibuf K [] m -> Quiet.Cover P m ->
+  heap m0 = heap m -> pc m0 = pc m -> pc_size m0 = pc_size m ->
+  slots m0 = slots m -> bag m0 = bag m -> values m0 = values m -> dead m0 = dead m ->
+  trace_pass K P m0 = (m', PDone L) ->
+  CoverE P [] L [] m' /\ gsim m m'.
+Proof. exact QuietCover.CoverE_pass. Qed.
+Print Assumptions C02_coverE_pass.
+
+Theorem C02_coverE_rebuffer :
+  forall (K : conf) (P : prog) (E X L : list id) (m : machine),
+  CoverE P E L X m ->
+  CoverE P E [] X
+    (fold_left (fun m g => uhdr g (fun h => set_mark PC (reset_tc h)) m) L m
+       <| pc ::= fun old => L ++ old |> <| pc_size ::= fun s => (N.of_nat (length L) + s)%N |>).
+Proof. exact QuietCover.CoverE_rebuffer. Qed.
+Print Assumptions C02_coverE_rebuffer.
+
+Theorem C02_coverE_enter_dead :
+  forall (P : prog) (E X L : list id) (m : machine),
+  CoverE P E L X m -> CoverE P E [] X (m <| st_dropping := true |> <| dead ::= app L |>).
+Proof. exact QuietCover.CoverE_enter_dead. Qed.
+Print Assumptions C02_coverE_enter_dead.
+
+(** ** [Pinned] versus the checker's pinned closure *)
+Theorem C02_pinned_strict :
+  forall (P : prog) (m : machine) (o : id),
+  NoStale m -> Pinned P m o -> ProgReach m o \/ PinnedS P m o.
+Proof. exact Quiet.Pinned_strict. Qed.
+Print Assumptions C02_pinned_strict.
+Theorem C02_pinnedS_pinned :
+  forall (P : prog) (m : machine) (o : id), PinnedS P m o -> Pinned P m o.
+Proof. exact Quiet.PinnedS_Pinned. Qed.
+Print Assumptions C02_pinnedS_pinned.
 
 (** ** Pins *)
 Check C02_pass_complete.
@@ -227,9 +312,29 @@ Module Ex.
     omap (fun '(o, x) => match o_box x with BFreed => Some o | _ => None end)
          (imap (fun o x => (o, x)) (heap m)).
 
-  Definition m0 : machine := st pre.
-  Definition m1 : machine := st (pre ++ [CCollect]).
-  Definition m2 : machine := (run exK exP 99 KCollectCycles m1).1.
+  (** (notations, not definitions: the states are only ever evaluated by [vm_compute]) *)
+  Notation m0 := (st pre).
+  Notation m1 := (st (pre ++ [CCollect])).
+  Notation m2 := ((run exK exP 99 KCollectCycles (st (pre ++ [CCollect]))).1).
+
+  (** [C02_quiet_prog_partial] and [safe_programs_sinv] for the programs of this example *)
+  Lemma quiet_st cmds n m' :
+    SafeMain.clean (st cmds) = true -> no_panic_yet (st cmds) = true ->
+    cover_b exP (st cmds) = true -> maps_owned_b (st cmds) = true ->
+    run exK exP n KCollectCycles (st cmds) = (m', ONormal) -> quiet (st cmds) m' ->
+    (forall o x, get m' o = Some x -> o_box x = BAlloc -> o_vst x = VLive ->
+       o ∈ dead m' \/ ProgReach m' o \/ Pinned exP m' o) /\
+    gsim (st cmds) m' /\ pc m' = [] /\ st_alloc m' = BufBase.bytes exK m'.
+  Proof.
+    intros H3 H4 H5 H6 H7 H8.
+    exact (C02_quiet_prog_partial exK exP 100 cmds n m' (fun _ => eq_refl) eq_refl H3 H4
+             (C02_cover_sound exP _ H5) (maps_owned_sound _ H6) H7 H8).
+  Qed.
+  Lemma sinv_st cmds : SafeMain.clean (st cmds) = true -> exists b, SInv exK b [] [] (st cmds).
+  Proof.
+    intros Hcl. destruct (SafeFinal.safe_programs_sinv exK exP 100 cmds (fun _ => eq_refl) eq_refl Hcl) as (b & _ & HI & _).
+    exists b. exact HI.
+  Qed.
 
   (** before the first collection: five live objects, the cycle and object 2 are buffered, the
       coverage checker holds *)
@@ -246,7 +351,6 @@ Module Ex.
 
   (** the hypotheses of [C02_quiet_prog_partial] hold at [m1] ... *)
   Example hyps :
-    (k_clean exK = true -> k_weak exK = true) /\ wf_prog exP = true /\
     SafeMain.clean m1 = true /\ no_panic_yet m1 = true /\ cover_b exP m1 = true /\ maps_owned_b m1 = true /\
     run exK exP 99 KCollectCycles m1 = (m2, ONormal) /\ quiet m1 m2.
   Proof. vm_compute. repeat split. Qed.
@@ -255,27 +359,25 @@ Module Ex.
   Example second_collection_quiet :
     (forall o x, get m2 o = Some x -> o_box x = BAlloc -> o_vst x = VLive ->
        o ∈ dead m2 \/ ProgReach m2 o \/ Pinned exP m2 o) /\
-    gsim m1 m2 /\ pc m2 = [] /\ st_alloc m2 = bytes exK m2.
+    gsim m1 m2 /\ pc m2 = [] /\ st_alloc m2 = BufBase.bytes exK m2.
   Proof.
-    destruct hyps as (H1 & H2 & H3 & H4 & H5 & H6 & H7 & H8).
-    exact (C02_quiet_prog_partial exK exP 100 (pre ++ [CCollect]) 99 m2 H1 H2 H3 H4
-             (C02_cover_sound exP m1 H5) (maps_owned_sound m1 H6) H7 H8).
+    destruct hyps as (H3 & H4 & H5 & H6 & H7 & H8).
+    exact (quiet_st (pre ++ [CCollect]) 99 m2 H3 H4 H5 H6 H7 H8).
   Qed.
 
   (** and what remains is exactly: object 4 (program-reachable, not pinned), objects 2 and 3
       (pinned, not program-reachable) *)
   Example remaining_b :
-    live_ids m2 = [2; 3; 4]%nat /\ dead m2 = [0; 1]%nat /\ st_alloc m2 = 192 /\
-    map (prog_reach_b m2) [2; 3; 4]%nat = [false; false; true] /\
-    map (pinned_b exP m2) [2; 3; 4]%nat = [true; true; false].
+    live_ids m2 = [2; 3; 4]%nat /\ dead m2 = [1; 0]%nat /\ st_alloc m2 = 192 /\ no_stale_b m2 = true /\
+    (prog_reach_b m2 2%nat = false /\ prog_reach_b m2 3%nat = false /\ prog_reach_b m2 4%nat = true) /\
+    (pinned_b exP m2 2%nat = true /\ pinned_b exP m2 3%nat = true /\ pinned_b exP m2 4%nat = false).
   Proof. vm_compute. repeat split. Qed.
 
   Lemma m2_sinv : exists b, SInv exK b [] [] m2.
   Proof.
-    destruct hyps as (H1 & H2 & H3 & H4 & H5 & H6 & H7 & H8).
     assert (Hcl : SafeMain.clean (st (pre ++ [CCollect; CCollect])) = true) by (vm_compute; reflexivity).
-    destruct (SafeFinal.safe_programs_sinv exK exP 100 (pre ++ [CCollect; CCollect]) H1 H2 Hcl) as (b & _ & HI & _).
-    exists b. eapply SafeMain.SInv_ieq; [|exact HI]. vm_compute. repeat split.
+    destruct (sinv_st (pre ++ [CCollect; CCollect]) Hcl) as (b & HI).
+    exists b. eapply SInv_ieq; [|exact HI]. vm_compute. repeat split.
   Qed.
 
   Example remaining :
@@ -284,7 +386,11 @@ Module Ex.
     Pinned exP m2 3%nat /\ ~ ProgReach m2 3%nat.
   Proof.
     destruct m2_sinv as [b HI].
-    rewrite <- !(C02_prog_reach_b_spec exK b [] [] m2 _ HI), <- !(C02_pinned_b_spec exK exP b [] [] m2 _ HI).
-    vm_compute. repeat split; discriminate.
+    pose proof (fun o => C02_prog_reach_b_spec exK b [] [] m2 o HI) as HR.
+    pose proof (fun o => C02_pinned_b_spec exK exP b [] [] m2 o HI) as HP.
+    destruct remaining_b as (_ & _ & _ & _ & (ER2 & ER3 & ER4) & (EP2 & EP3 & EP4)).
+    split; [apply HR, ER4|]. split; [intros H; apply HP in H; congruence|].
+    split; [apply HP, EP2|]. split; [intros H; apply HR in H; congruence|].
+    split; [apply HP, EP3|]. intros H; apply HR in H; congruence.
   Qed.
 End Ex.
